@@ -29,8 +29,12 @@ def _key(k, kt):
 
 
 def observe(t, queries, kt):
-    items = [[list(k), _out(v)] for k, v in t.items()]
-    it = [[list(k), _out(v)] for k, v in t]
+    # materialise the iterators first, convert afterwards: a key object handed out must not change later
+    raw_items = list(t.items())
+    raw_iter = list(t)
+    raw_prefixes = list(t.prefixes())
+    items = [[list(k), _out(v)] for k, v in raw_items]
+    it = [[list(k), _out(v)] for k, v in raw_iter]
     rows = []
     for q in queries:
         key = _key(q, kt)
@@ -40,7 +44,7 @@ def observe(t, queries, kt):
             idx = "KeyError"
         rows.append({"k": list(q), "get": _out(t.get(key)), "getd": _out(t.get(key, SENTINEL)), "idx": idx,
                      "lmp": _out(t.longest_matching_prefix_value(key))})
-    return {"len": len(t), "items": items, "iter": it, "prefixes": [list(p) for p in t.prefixes()],
+    return {"len": len(t), "items": items, "iter": it, "prefixes": [list(p) for p in raw_prefixes],
             "values": [_out(v) for v in t.values()], "q": rows}
 
 
